@@ -575,6 +575,48 @@ theorem getMinimalGeneratorsI_norm (K : Ctx) (hwf : K.table.WF) (I G O : List Na
   · intro c _
     exact pySorted_congr (hperm.append_right c)
 
+/-- the search depends on `intent` and the base objects only as sets (repetitions and order are irrelevant)
+    and on a duplicate-free base generator only up to order: the two calls return the same LIST -/
+theorem getMinimalGeneratorsI_congr (K : Ctx) (hwf : K.table.WF) (I I' G G' O O' : List Nat)
+    (hG : ∀ a ∈ G, a < K.nAttributes) (hGn : G.Nodup) (hGn' : G'.Nodup) (hO : ∀ g ∈ O, g < K.nObjects)
+    (hI : ∀ a, a ∈ I ↔ a ∈ I') (hGG : ∀ a, a ∈ G ↔ a ∈ G') (hOO : ∀ g, g ∈ O ↔ g ∈ O') :
+    K.getMinimalGeneratorsI I (some G) (some O) = K.getMinimalGeneratorsI I' (some G') (some O') := by
+  unfold Ctx.getMinimalGeneratorsI
+  simp only
+  have hperm : G.Perm G' := (List.perm_ext_iff_of_nodup hGn hGn').mpr hGG
+  have hattrs : K.attrsToIterate G = K.attrsToIterate G' := by
+    unfold Ctx.attrsToIterate
+    apply List.filter_congr
+    intro a _
+    congr 1
+    rw [Bool.eq_iff_iff]
+    simp only [List.contains_eq_mem, decide_eq_true_eq]
+    exact hGG a
+  rw [hattrs]
+  congr 1
+  apply minGenLoop_congr
+  · intro c hc
+    have hcr : ∀ a ∈ c, a < K.nAttributes := fun a ha => (mem_attrsToIterate.mp (hc.subset ha)).1
+    have hG' : ∀ a ∈ G', a < K.nAttributes := fun a ha => hG a ((hGG a).mpr ha)
+    have hO' : ∀ g ∈ O', g < K.nObjects := fun g hg => hO g ((hOO g).mpr hg)
+    rw [Bool.eq_iff_iff, genTest_iff K hwf _ _ _ c hG hcr hO, genTest_iff K hwf _ _ _ c hG' hcr hO']
+    rw [clBase_congr2 K.table (bo := O) (bo' := O') (X := G ++ c) (Y := G' ++ c) hOO
+      (fun a => by simp only [List.mem_append, hGG a])]
+    unfold Spec.SameSet
+    exact ⟨fun H x => (H x).trans (hI x), fun H x => (H x).trans (hI x).symm⟩
+  · intro c _
+    exact pySorted_congr (hperm.append_right c)
+
+/-- the by-name translation reads the given names as a set -/
+theorem idxOfNamesIn_congr (names : List String) {sel sel' : List String} (h : ∀ x, x ∈ sel ↔ x ∈ sel') :
+    Ctx.idxOfNamesIn names sel = Ctx.idxOfNamesIn names sel' := by
+  unfold Ctx.idxOfNamesIn
+  apply List.filter_congr
+  intro i _
+  rw [Bool.eq_iff_iff]
+  simp only [List.contains_eq_mem, decide_eq_true_eq]
+  exact h _
+
 theorem normIdx_range (n : Nat) : normIdx n (List.range n) = List.range n := by
   unfold normIdx
   apply List.filter_eq_self.mpr
